@@ -241,6 +241,57 @@ func wlRebuilt(g *hx.Gen, k int) workload {
 	}}
 }
 
+// wlLoadWhileUsing: some goroutines USE a struct-mapped schema whose unset sub-objects get their defaults
+// filled in (three levels), others LOAD descriptions at the same time (every loaded object extracts its defaults
+// for the first time): schema values that have nothing to do with each other, used from their very first use.
+// Every call returns what it returns in isolation - in particular it returns.
+func wlLoadWhileUsing(g *hx.Gen, k int) workload {
+	t := describableScope(g)
+	def := `{}`
+	if g.R.Intn(2) == 0 {
+		def = `{"c": "z"}`
+	}
+	idx := make([]int, k)
+	for i := range idx {
+		idx[i] = g.R.Intn(len(libTopInputs))
+	}
+	return workload{kind: "load-while-using", ty: t, build: func() ([]thunk, error) {
+		desc, err := t.Build().(*schema.ScopeSchema).SelfSerialize()
+		if err != nil {
+			return nil, err
+		}
+		top := schema.NewStructMappedObjectSchema[libTop]("top", libTopProps(def))
+		var ts []thunk
+		for i := range idx {
+			in := libTopInputs[idx[i]]
+			if i%2 == 0 {
+				ts = append(ts, thunk{"U-struct", func() string {
+					r := ""
+					for n := 0; n < 40; n++ {
+						r = runOp(top, "U", deepCopy(in))
+					}
+					return r
+				}})
+			} else {
+				ts = append(ts, thunk{"load", func() string {
+					return guard(func() string {
+						r := ""
+						for n := 0; n < 15; n++ {
+							s, err := schema.UnserializeScope(deepCopy(desc))
+							if err != nil {
+								return "err:" + class(err)
+							}
+							r = runOp(s, "U", map[string]any{})
+						}
+						return r
+					})
+				}})
+			}
+		}
+		return ts, nil
+	}}
+}
+
 // a whole schema (one step) rebuilt by UnserializeSchema; calls go to the step's input and output scopes
 func wlSchema(g *hx.Gen, k int) workload {
 	tin, tout := describableScope(g), describableScope(g)
@@ -875,7 +926,7 @@ func runTrial(seed int64, trial int, maxG int, only string, sequential bool) tri
 	G := 2 + g.R.Intn(maxG-1)
 	K := G * (1 + g.R.Intn(4))
 	// which workload comes first differs between processes, so every kind of first use gets raced
-	makers := []func(*hx.Gen, int) workload{wlGenerated, wlRebuilt, wlLibrary, wlUnits, wlMeta, wlSchema, wlSteps, wlLibrary, wlRebuilt, wlCompat, wlUnitTwins}
+	makers := []func(*hx.Gen, int) workload{wlGenerated, wlRebuilt, wlLibrary, wlUnits, wlMeta, wlSchema, wlSteps, wlLibrary, wlRebuilt, wlCompat, wlUnitTwins, wlLoadWhileUsing}
 	var wl workload
 	if only != "" {
 		for {
